@@ -7,13 +7,22 @@ pid, var = sys.argv[1], sys.argv[2]
 src = f"/tmp/wt/out_{pid}/{var}"
 meta = json.load(open(f"{src}/meta.json"))
 wt = f"/tmp/sv_{pid}{var}"
+inplace = len(sys.argv) > 3 and sys.argv[3] == "--inplace"
+if inplace:
+    # demos that are scratch modules name the agent's worktree in go.mod/replace and helper scripts:
+    # reuse that scratch worktree (reset to the pinned HEAD first) instead of a new one
+    wt = f"/tmp/wt/{pid}"
 env = dict(os.environ, GOFLAGS="-mod=mod", GOPROXY="off", GOSUMDB="off")
 def sh(cmd, cwd=None):
     r = subprocess.run(cmd, shell=True, cwd=cwd, env=env, capture_output=True, text=True)
     return r.returncode, (r.stdout + r.stderr)
-sh(f"git -C /repo worktree remove --force {wt}")
-rc, out = sh(f"git -C /repo worktree add -q --detach {wt} HEAD")
-assert rc == 0, out
+if inplace:
+    rc, out = sh(f"git -C {wt} checkout -q --detach $(git -C /repo rev-parse HEAD) && git -C {wt} checkout -- . && git -C {wt} clean -fdq && git -C {wt} status --porcelain")
+    assert rc == 0 and out.strip() == "", out
+else:
+    sh(f"git -C /repo worktree remove --force {wt}")
+    rc, out = sh(f"git -C /repo worktree add -q --detach {wt} HEAD")
+    assert rc == 0, out
 result = {"property": pid, "variant": var, "summary": meta.get("summary"), "needs_to_manifest": meta.get("needs_to_manifest"), "files_changed": meta.get("files_changed")}
 try:
     demo = meta["demo_cmd"].replace(f"/tmp/wt/{pid}", wt).replace(f"/tmp/wt/out_{pid}", f"/tmp/wt/out_{pid}")
@@ -42,7 +51,10 @@ try:
     ok = rc0 == 0 and result["patch_applies"] and rcT == 0 and rc1 != 0
     result["confirmed"] = ok
 finally:
-    sh(f"git -C /repo worktree remove --force {wt}")
+    if inplace:
+        sh(f"git -C {wt} checkout -- . && git -C {wt} clean -fdq")
+    else:
+        sh(f"git -C /repo worktree remove --force {wt}")
 print(json.dumps(result, indent=1)[:1500])
 if result.get("confirmed"):
     dst = f"/verif/seeded/{pid}{var}"
